@@ -109,8 +109,27 @@ def run(ctx, replay_case):
     res = ds.run_both(cases, "W")
     wi, wm = res["W"]
     ds.correspondence_violation(ctx, "DEC warn", cases, "W", wi, wm)
+    # the lenient interpretation (Lean: strict decoding under the relaxed tables, driver op DECL) on every input: whenever it accepts,
+    # the implementation's warn-mode decode must return the same object and, its value warnings removed, show exactly the lenient events
+    # (this ties the model function the theorems of Props/C08L.lean speak about to the implementation)
+    len_model = core.run_model([f"DECL {c.tname} {'-' if c.cc is None else c.cc} {1 if c.enc else 0} {c.data.hex() or '-'}" for c in cases])
+    n_len = n_lenbad = 0
+    for c, w, lm in zip(cases, wi, len_model):
+        if not lm or not lm[-1].startswith("R done"):
+            continue
+        n_len += 1
+        got = [l for l in w if not (l.startswith("W ") and "ValueConstraintViolatedError" in l)]
+        if got != lm:
+            n_lenbad += 1
+            if n_lenbad <= 2:
+                k, e, g = __import__("suites").first_diff(lm, got)
+                ctx.violations.append({"kind": "concrete", "signature": "lenient",
+                                       "what": f"the lenient interpretation accepts this {c.tname}, but the warn-mode decode minus its value warnings is not the lenient reading (line {k})",
+                                       "replay": {**c.replay("W"), "expected": (e or "")[:200], "observed": (g or "")[:200]}})
     G = gen.Gen(L, rnd)
     stats = collections.Counter()
+    stats["lenient_accepts"] = n_len
+    stats["lenient_mismatch"] = n_lenbad
     for c, w in zip(cases, wi):
         o = ds.outcome(w)
         stats["outcome:" + o] += 1
